@@ -1,16 +1,22 @@
 (* Prog.v -- a problem is the *program* of constructor calls that builds it.
    pstate mirrors what later calls read; step mirrors each constructor
    (accept / reject / effect).  Model file: no property proofs here. *)
-From Coq Require Import ZArith List Bool.
-From PS.model Require Import Smt Enc.
+From Coq Require Import ZArith List Bool String.
+From PS.model Require Import Smt Enc Ind.
 Import ListNotations.
 Open Scope Z_scope.
 
 (* ------------------------------------------------------------------ *)
-Inductive costfn := CostConst (v : Z) | CostLinear (slope intercept : Z) | CostPoly (coefs : list Z).
 Record wrec := { w_ref : wref; w_prod : Z; w_cost : costfn }.
 Record curec := { cu_id : nat; cu_size : nat; cu_prod : Z; cu_cost : Z }.
 Record conrec := { c_id : nat; c_opt : bool; c_flag : bool; c_expr : rcexpr }.
+
+(* indicators, objectives, buffers *)
+Record indrec := { i_id : nat; i_key : option string; i_given : string; i_bounds : option (Z * Z);
+                   i_all : list tinfo; i_hz : option Z; i_expr : riexpr }.
+Record objrec := { o_name : string; o_target : term; o_weight : Z; o_dir : dirn; o_bounds : option (Z * Z) }.
+Record ext := { x_bufs : list bufrec; x_inds : list indrec; x_objs : list objrec }.
+Definition empty_ext : ext := {| x_bufs := []; x_inds := []; x_objs := [] |}.
 
 Record pstate := {
   ps_horizon : option Z;
@@ -23,16 +29,31 @@ Record pstate := {
   ps_busy : list (rref * list (nat * bool));     (* resource._busy_intervals: task id -> (maybe-)busy variables *)
   ps_cons : list conrec;
   ps_neg : Z;                                    (* problem._unique_integer *)
-  ps_nauto : nat }.
+  ps_nauto : nat;
+  ps_ext : ext }.
 
 Definition empty_problem (h : option Z) : pstate :=
   {| ps_horizon := h; ps_tasks := []; ps_workers := []; ps_cumuls := []; ps_selects := [];
-     ps_reqs := []; ps_areqs := []; ps_busy := []; ps_cons := []; ps_neg := -1; ps_nauto := 0 |}.
+     ps_reqs := []; ps_areqs := []; ps_busy := []; ps_cons := []; ps_neg := -1; ps_nauto := 0; ps_ext := empty_ext |}.
 
 (* ------------------------------------------------------------------ *)
 (* user-level references *)
 Inductive resarg := ArgW (w : wref) | ArgC (c : nat) | ArgS (s : nat).
 Definition ucexpr := cexpr nat nat resobj nat.
+Definition uiexpr := iexpr nat resobj nat.
+
+Inductive oexpr (T R B : Type) :=
+| OMakespan | OMaxUtilization (r : R) | OMinCost (rs : list R)
+| OStartLatest (ts : option (list T)) | OStartEarliest | OGreatestStart (ts : option (list T))
+| OFlowtime (ts : option (list T)) | OPriorities | OFlowtimeSingle (r : R) (iv : option (Z * Z))
+| OMaxBufMax (b : B) | OMinBufMax (b : B)
+| OMinIndicator (i : nat) (w : Z) | OMaxIndicator (i : nat) (w : Z).
+Arguments OMakespan {T R B}. Arguments OMaxUtilization {T R B}. Arguments OMinCost {T R B}.
+Arguments OStartLatest {T R B}. Arguments OStartEarliest {T R B}. Arguments OGreatestStart {T R B}.
+Arguments OFlowtime {T R B}. Arguments OPriorities {T R B}. Arguments OFlowtimeSingle {T R B}.
+Arguments OMaxBufMax {T R B}. Arguments OMinBufMax {T R B}. Arguments OMinIndicator {T R B}.
+Arguments OMaxIndicator {T R B}.
+Definition uoexpr := oexpr nat resobj nat.
 
 Inductive op :=
 | ONewProblem (h : option Z)
@@ -41,7 +62,10 @@ Inductive op :=
 | ONewCumulative (id : nat) (size : Z) (prod : Z) (cost : costfn)
 | ONewSelect (id : nat) (listed : list rref) (n : Z) (k : pbkind)
 | OAddRequired (t : nat) (r : resarg) (dynamic : bool) (delay_in early_out : Z)
-| ONewConstraint (id : nat) (opt : bool) (e : ucexpr).
+| ONewConstraint (id : nat) (opt : bool) (e : ucexpr)
+| ONewBuffer (id : nat) (concurrent : bool) (init final lo hi : option Z)
+| ONewIndicator (id : nat) (e : uiexpr) (bounds : option (Z * Z))
+| ONewObjective (o : uoexpr) (ind : nat).      (* ind: id given to the indicator the objective creates, if any *)
 
 Inductive result := Ok (st : pstate) | Err | Unsupported.
 
@@ -132,6 +156,21 @@ Definition res_resobj (st : pstate) (o : resobj) : option rsnap :=
   end.
 Definition res_sel (st : pstate) (s : nat) : option srec := find_select st (SUser s).
 
+Definition find_buf (st : pstate) (b : nat) : option bufrec :=
+  find (fun r => Nat.eqb (b_id r) b) (x_bufs (ps_ext st)).
+Definition find_ind (st : pstate) (i : nat) : option indrec :=
+  find (fun r => Nat.eqb (i_id r) i) (x_inds (ps_ext st)).
+Definition res_rc (st : pstate) (o : resobj) : option rcsnap :=
+  match res_resobj st o with
+  | Some r => Some {| rc_snap := r;
+                      rc_costs := flat_map (fun '(w, _) => match find_worker st w with
+                                                           | Some x => [(w, w_cost x)] | None => [] end) (rs_units r) |}
+  | None => None end.
+Definition res_bsnap (st : pstate) (b : nat) : option bsnap :=
+  match find_buf st b with Some r => Some {| bn_id := b; bn_levels := buf_levels r |} | None => None end.
+Definition res_tasks (st : pstate) (ts : option (list nat)) : option (option (list tinfo)) :=
+  match ts with None => Some None | Some l => match mapM (find_task st) l with Some l' => Some (Some l') | None => None end end.
+
 Definition opt_bind {A B} (a : option A) (f : A -> option B) : option B :=
   match a with Some x => f x | None => None end.
 Notation "'do' x <- a ; b" := (opt_bind a (fun x => b)) (at level 200, x name, a at level 100, b at level 200).
@@ -179,6 +218,34 @@ Definition resolve (st : pstate) (e : ucexpr) : option rcexpr :=
   | CIndBounds i lo hi => Some (CIndBounds i lo hi)
   end.
 
+Definition resolve_i (st : pstate) (e : uiexpr) : option riexpr :=
+  match e with
+  | IExpr t => Some (IExpr t)
+  | IUtilization r => do r' <- res_rc st r; Some (IUtilization r')
+  | INbTasks r => do r' <- res_rc st r; Some (INbTasks r')
+  | IIdle r => do r' <- res_rc st r; Some (IIdle r')
+  | ITardiness ts => do ts' <- res_tasks st ts; Some (ITardiness ts')
+  | IEarliness ts => do ts' <- res_tasks st ts; Some (IEarliness ts')
+  | INbTardy ts => do ts' <- res_tasks st ts; Some (INbTardy ts')
+  | IMaxLateness ts => do ts' <- res_tasks st ts; Some (IMaxLateness ts')
+  | ICost rs => do rs' <- mapM (res_rc st) rs; Some (ICost rs')
+  | IMaxBuf b => do b' <- res_bsnap st b; Some (IMaxBuf b')
+  | IMinBuf b => do b' <- res_bsnap st b; Some (IMinBuf b')
+  | IMinStart ts => do ts' <- res_tasks st ts; Some (IMinStart ts')
+  | IGreatestStart ts => do ts' <- res_tasks st ts; Some (IGreatestStart ts')
+  | IWeightedStarts => Some IWeightedStarts
+  | IFlowtime ts => do ts' <- res_tasks st ts; Some (IFlowtime ts')
+  | ITotalPriority => Some ITotalPriority
+  | IFlowSingle r iv => do r' <- res_rc st r; Some (IFlowSingle r' iv)
+  end.
+Definition user_indicator (e : uiexpr) : bool :=
+  match e with
+  | IMinStart _ | IGreatestStart _ | IWeightedStarts | IFlowtime _ | ITotalPriority | IFlowSingle _ _ => false
+  | _ => true end.
+
+Definition ind_asserts (r : indrec) : list form := enc_ind (i_id r) (i_hz r) (i_all r) (i_expr r).
+Definition ind_name (r : indrec) : string := ind_report_name (i_given r) (i_expr r).
+
 (* constraint ids whose created_from_assertion flag the constructor sets *)
 Definition operand_ids (e : rcexpr) : list nat :=
   let ids := flat_map (fun x => match x with OpC o => [or_id o] | OpRaw _ => [] end) in
@@ -208,6 +275,7 @@ Fixpoint term_beq (a b : term) {struct a} : bool :=
   | TDiv a1 a2, TDiv b1 b2 | TMod a1 a2, TMod b1 b2 => term_beq a1 b1 && term_beq a2 b2
   | TIte c a1 a2, TIte d b1 b2 => form_beq c d && term_beq a1 b1 && term_beq a2 b2
   | TSel x i, TSel y j => Nat.eqb x y && term_beq i j
+  | TApp f x, TApp g y => fname_beq f g && term_beq x y
   | _, _ => false
   end
 with form_beq (a b : form) {struct a} : bool :=
@@ -224,6 +292,7 @@ with form_beq (a b : form) {struct a} : bool :=
   | FIte c a1 a2, FIte d b1 b2 => form_beq c d && form_beq a1 b1 && form_beq a2 b2
   | FPbLe l k, FPbLe m j | FPbGe l k, FPbGe m j | FPbEq l k, FPbEq m j => lb l m && Z.eqb k j
   | FArrFix x i v, FArrFix y j w => Nat.eqb x y && term_beq i j && term_beq v w
+  | FFunPoint f t q, FFunPoint g u r => fname_beq f g && term_beq t u && Z.eqb q r
   | _, _ => false
   end.
 Fixpoint nodup_forms (l : list form) : bool :=
@@ -257,7 +326,103 @@ Definition add_select (st : pstate) (t : tinfo) (s : srec) : pstate :=
      ps_cumuls := ps_cumuls st; ps_selects := ps_selects st;
      ps_reqs := al_set Nat.eqb (ps_reqs st) id (reqs_of st id ++ s_listed s);
      ps_areqs := push_list Nat.eqb (ps_areqs st) id (AQSelect (s_ref s) listed (s_n s) (s_kind s));
-     ps_busy := busy; ps_cons := ps_cons st; ps_neg := neg; ps_nauto := ps_nauto st |}.
+     ps_busy := busy; ps_cons := ps_cons st; ps_neg := neg; ps_nauto := ps_nauto st; ps_ext := ps_ext st |}.
+
+(* TaskLoadBuffer / TaskUnloadBuffer: buffer.add_(un)loading_task *)
+Definition buf_add (b : bufrec) (load : bool) (t : nat) (q : Z) : bufrec :=
+  {| b_id := b_id b; b_conc := b_conc b; b_init := b_init b; b_final := b_final b; b_lo := b_lo b; b_hi := b_hi b;
+     b_unload := if load then b_unload b else al_set Nat.eqb (b_unload b) t q;
+     b_load := if load then al_set Nat.eqb (b_load b) t q else b_load b;
+     b_slots := b_slots b ++ [t] |}.
+Definition buffer_effect (x : ext) (e : rcexpr) : ext :=
+  let upd bid load t q :=
+    {| x_bufs := map (fun b => if Nat.eqb (b_id b) bid then buf_add b load (ti_id t) q else b) (x_bufs x);
+       x_inds := x_inds x; x_objs := x_objs x |} in
+  match e with
+  | CLoad t b q => upd b true t q
+  | CUnload t b q => upd b false t q
+  | _ => x
+  end.
+Definition buffer_known (st : pstate) (e : rcexpr) : bool :=
+  match e with
+  | CLoad _ b _ | CUnload _ b _ => match find_buf st b with Some _ => true | None => false end
+  | CIndTarget i _ | CIndBounds i _ _ => match find_ind st i with Some _ => true | None => false end
+  | _ => true
+  end.
+
+Definition absentb {A} (x : option A) : bool := match x with None => true | Some _ => false end.
+
+Definition with_ext (st : pstate) (x : ext) : pstate :=
+  {| ps_horizon := ps_horizon st; ps_tasks := ps_tasks st; ps_workers := ps_workers st;
+     ps_cumuls := ps_cumuls st; ps_selects := ps_selects st; ps_reqs := ps_reqs st;
+     ps_areqs := ps_areqs st; ps_busy := ps_busy st; ps_cons := ps_cons st;
+     ps_neg := ps_neg st; ps_nauto := ps_nauto st; ps_ext := x |}.
+
+Definition key_taken (st : pstate) (k : option string) : bool :=
+  match k with
+  | None => false
+  | Some n => existsb (fun r => match i_key r with Some m => String.eqb m n | None => false end) (x_inds (ps_ext st))
+  end.
+
+(* Indicator.__init__ + subclass: register under the given name, then build the assertions *)
+Definition add_indicator (st : pstate) (id : nat) (key : option string) (given : string)
+           (bounds : option (Z * Z)) (e : riexpr) : option pstate :=
+  if key_taken st key then None
+  else if negb (check_i (ps_tasks st) e) then None
+  else
+    let r := {| i_id := id; i_key := key; i_given := given; i_bounds := ind_bounds bounds e;
+                i_all := ps_tasks st; i_hz := ps_horizon st; i_expr := e |} in
+    if negb (nodup_forms (ind_asserts r)) then None
+    else Some (with_ext st {| x_bufs := x_bufs (ps_ext st); x_inds := x_inds (ps_ext st) ++ [r]; x_objs := x_objs (ps_ext st) |}).
+
+Open Scope string_scope.
+Definition user_ind_name (id : nat) : string := "I" ++ show_nat id.
+Definition show_bound (t : term) : string := match t with TC z => match z with Zneg p => "-" ++ show_N (Npos p) | _ => show_Z z end | _ => "horizon" end.
+Definition names_concat (rs : list resobj) : string := String.concat "" (map resobj_name rs).
+
+(* the indicator an objective creates: (dict key, given name, expression) *)
+Definition objective_indicator (o : uoexpr) : option (option string * string * uiexpr) :=
+  match o with
+  | OMakespan | OMinIndicator _ _ | OMaxIndicator _ _ => None
+  | OMaxUtilization r => Some (None, "", IUtilization r)
+  | OMinCost rs => Some (None, "", ICost rs)
+  | OStartLatest ts => Some (Some "MinimumStartTime", "MinimumStartTime", IMinStart ts)
+  | OStartEarliest => Some (Some "WeightedStartTimes", "WeightedStartTimes", IWeightedStarts)
+  | OGreatestStart ts => Some (Some "GreatestStartTime", "GreatestStartTime", IGreatestStart ts)
+  | OFlowtime ts => Some (Some "Flowtime", "Flowtime", IFlowtime ts)
+  | OPriorities => Some (Some "TotalPriority", "TotalPriority", ITotalPriority)
+  | OFlowtimeSingle r iv =>
+      let n := "FlowTimeSingleResource(" ++ resobj_name r ++ ":"
+               ++ show_bound (match iv with Some (lo, _) => TC lo | None => TC 0 end) ++ ":"
+               ++ show_bound (match iv with Some (_, hi) => TC hi | None => TV VHorizon end) ++ ")" in
+      Some (Some n, n, IFlowSingle r iv)
+  | OMaxBufMax b | OMinBufMax b => Some (None, "", IMaxBuf b)
+  end.
+Definition objective_name (st : pstate) (o : uoexpr) : option string :=
+  match o with
+  | OMakespan => Some "MinimizeMakeSpan"
+  | OMaxUtilization _ => Some "MaximizeResourceUtilization"
+  | OMinCost rs => Some ("MinimizeResourceCost" ++ names_concat rs)
+  | OStartLatest _ => Some "MaximizeStartLatest"
+  | OStartEarliest => Some "MinimizeWeightedStartTimes"
+  | OGreatestStart _ => Some "MinimizeGreatestStartTime"
+  | OFlowtime _ => Some "MinimizeFlowtime"
+  | OPriorities => Some "MinimizePriority"
+  | OFlowtimeSingle r iv =>
+      Some ("ObjectiveFlowtimeSingleResource(" ++ resobj_name r ++ ":"
+            ++ show_bound (match iv with Some (lo, _) => TC lo | None => TC 0 end) ++ ":"
+            ++ show_bound (match iv with Some (_, hi) => TC hi | None => TV VHorizon end) ++ ")")
+  | OMaxBufMax _ => Some "MaximizeBufferLevel"
+  | OMinBufMax _ => Some "MinimizeBufferLevel"
+  | OMinIndicator i _ => match find_ind st i with Some r => Some ("Minimize" ++ ind_name r) | None => None end
+  | OMaxIndicator i _ => match find_ind st i with Some r => Some ("Maximize" ++ ind_name r) | None => None end
+  end.
+Close Scope string_scope.
+Definition objective_dir (o : uoexpr) : dirn :=
+  match o with
+  | OMaxUtilization _ | OStartLatest _ | OMaxBufMax _ | OMaxIndicator _ _ => DMax
+  | _ => DMin
+  end.
 
 Definition step_problem (st : pstate) (o : op) : result :=
   match o with
@@ -268,12 +433,12 @@ Definition step_problem (st : pstate) (o : op) : result :=
       else match find_task st id with
       | Some _ => Err
       | None =>
-          let t := {| ti_id := id; ti_rank := Z.of_nat (S (length (ps_tasks st))); ti_kind := k; ti_opt := opt;
+          let t := {| ti_id := id; ti_rank := Z.of_nat (S (List.length (ps_tasks st))); ti_kind := k; ti_opt := opt;
                       ti_work := work; ti_release := rel; ti_due := due; ti_deadline := dl; ti_prio := prio |} in
           Ok {| ps_horizon := ps_horizon st; ps_tasks := ps_tasks st ++ [t]; ps_workers := ps_workers st;
                 ps_cumuls := ps_cumuls st; ps_selects := ps_selects st; ps_reqs := ps_reqs st;
                 ps_areqs := ps_areqs st; ps_busy := ps_busy st; ps_cons := ps_cons st;
-                ps_neg := ps_neg st; ps_nauto := ps_nauto st |}
+                ps_neg := ps_neg st; ps_nauto := ps_nauto st; ps_ext := ps_ext st |}
       end
   | ONewWorker id prod cost =>
       if negb (nonneg prod) then Err
@@ -284,7 +449,7 @@ Definition step_problem (st : pstate) (o : op) : result :=
                 ps_workers := ps_workers st ++ [{| w_ref := WPlain id; w_prod := prod; w_cost := cost |}];
                 ps_cumuls := ps_cumuls st; ps_selects := ps_selects st; ps_reqs := ps_reqs st;
                 ps_areqs := ps_areqs st; ps_busy := ps_busy st; ps_cons := ps_cons st;
-                ps_neg := ps_neg st; ps_nauto := ps_nauto st |}
+                ps_neg := ps_neg st; ps_nauto := ps_nauto st; ps_ext := ps_ext st |}
       end
   | ONewCumulative id size prod cost =>
       match cost with
@@ -301,14 +466,14 @@ Definition step_problem (st : pstate) (o : op) : result :=
                   ps_cumuls := ps_cumuls st ++ [{| cu_id := id; cu_size := n; cu_prod := prod; cu_cost := cv |}];
                   ps_selects := ps_selects st; ps_reqs := ps_reqs st;
                   ps_areqs := ps_areqs st; ps_busy := ps_busy st; ps_cons := ps_cons st;
-                  ps_neg := ps_neg st; ps_nauto := ps_nauto st |}
+                  ps_neg := ps_neg st; ps_nauto := ps_nauto st; ps_ext := ps_ext st |}
         end
       | _ => Err
       end
   | ONewSelect id listed n k =>
       if negb (forallb (rref_exists st) listed) then Unsupported
-      else if negb ((2 <=? Z.of_nat (length listed)) && posz n && (n <=? Z.of_nat (length listed))) then Err
-      else if negb (Nat.eqb (length (nodup rref_eq_dec listed)) (length listed)) then Unsupported
+      else if negb ((2 <=? Z.of_nat (List.length listed)) && posz n && (n <=? Z.of_nat (List.length listed))) then Err
+      else if negb (Nat.eqb (List.length (nodup rref_eq_dec listed)) (List.length listed)) then Unsupported
       else match find_select st (SUser id) with
       | Some _ => Err
       | None =>
@@ -316,7 +481,7 @@ Definition step_problem (st : pstate) (o : op) : result :=
                 ps_cumuls := ps_cumuls st;
                 ps_selects := ps_selects st ++ [{| s_ref := SUser id; s_listed := listed; s_n := n; s_kind := k |}];
                 ps_reqs := ps_reqs st; ps_areqs := ps_areqs st; ps_busy := ps_busy st; ps_cons := ps_cons st;
-                ps_neg := ps_neg st; ps_nauto := ps_nauto st |}
+                ps_neg := ps_neg st; ps_nauto := ps_nauto st; ps_ext := ps_ext st |}
       end
   | OAddRequired tid r dyn di eo =>
       match find_task st tid with
@@ -333,7 +498,7 @@ Definition step_problem (st : pstate) (o : op) : result :=
                          ps_reqs := push_list Nat.eqb (ps_reqs st) tid (RW w);
                          ps_areqs := push_list Nat.eqb (ps_areqs st) tid (AQDirect w dyn di eo);
                          ps_busy := busy_add (ps_busy st) (RW w) tid false;
-                         ps_cons := ps_cons st; ps_neg := ps_neg st; ps_nauto := ps_nauto st |}
+                         ps_cons := ps_cons st; ps_neg := ps_neg st; ps_nauto := ps_nauto st; ps_ext := ps_ext st |}
             end
         | ArgS s =>
             match find_select st (SUser s) with
@@ -355,7 +520,7 @@ Definition step_problem (st : pstate) (o : op) : result :=
               Ok {| ps_horizon := ps_horizon st1; ps_tasks := ps_tasks st1; ps_workers := ps_workers st1;
                     ps_cumuls := ps_cumuls st1; ps_selects := ps_selects st1 ++ [sr];
                     ps_reqs := ps_reqs st1; ps_areqs := ps_areqs st1; ps_busy := ps_busy st1;
-                    ps_cons := ps_cons st1; ps_neg := ps_neg st1; ps_nauto := S (ps_nauto st) |}
+                    ps_cons := ps_cons st1; ps_neg := ps_neg st1; ps_nauto := S (ps_nauto st); ps_ext := ps_ext st |}
             end
         end
       end
@@ -366,7 +531,8 @@ Definition step_problem (st : pstate) (o : op) : result :=
         match resolve st e with
         | None => Unsupported
         | Some re =>
-          if negb (check_c re) then Err
+          if negb (buffer_known st re) then Unsupported
+          else if negb (check_c re) then Err
           else if negb (nodup_forms (enc_cons id opt re)) then Err
           else
             let flagged := operand_ids re in
@@ -377,7 +543,64 @@ Definition step_problem (st : pstate) (o : op) : result :=
                   ps_cumuls := ps_cumuls st; ps_selects := ps_selects st; ps_reqs := ps_reqs st;
                   ps_areqs := ps_areqs st; ps_busy := ps_busy st;
                   ps_cons := cons' ++ [{| c_id := id; c_opt := opt; c_flag := false; c_expr := re |}];
-                  ps_neg := ps_neg st; ps_nauto := ps_nauto st |}
+                  ps_neg := ps_neg st; ps_nauto := ps_nauto st; ps_ext := buffer_effect (ps_ext st) re |}
+        end
+      end
+  | ONewBuffer id conc init final lo hi =>
+      if absentb init && absentb final then Err
+      else match find_buf st id with
+      | Some _ => Err
+      | None =>
+          let b := {| b_id := id; b_conc := conc; b_init := init; b_final := final; b_lo := lo; b_hi := hi;
+                      b_unload := []; b_load := []; b_slots := [] |} in
+          Ok (with_ext st {| x_bufs := x_bufs (ps_ext st) ++ [b]; x_inds := x_inds (ps_ext st); x_objs := x_objs (ps_ext st) |})
+      end
+  | ONewIndicator id e bounds =>
+      if negb (user_indicator e) then Unsupported
+      else match find_ind st id with
+      | Some _ => Err
+      | None =>
+        match resolve_i st e with
+        | None => Unsupported
+        | Some re =>
+            match add_indicator st id (Some (user_ind_name id)) (user_ind_name id) bounds re with
+            | Some st' => Ok st' | None => Err end
+        end
+      end
+  | ONewObjective o ind =>
+      match objective_name st o with
+      | None => Unsupported
+      | Some name =>
+        let fin (st1 : pstate) (target : term) (w : Z) (bounds : option (Z * Z)) : result :=
+          if existsb (fun r => String.eqb (o_name r) name) (x_objs (ps_ext st1)) then Err
+          else Ok (with_ext st1 {| x_bufs := x_bufs (ps_ext st1); x_inds := x_inds (ps_ext st1);
+                                   x_objs := x_objs (ps_ext st1) ++
+                                     [{| o_name := name; o_target := target; o_weight := w; o_dir := objective_dir o;
+                                         o_bounds := bounds |}] |}) in
+        match o with
+        | OMakespan => fin st (TV VHorizon) 1 None
+        | OMinIndicator i w | OMaxIndicator i w =>
+            match find_ind st i with
+            | Some r => fin st (TV (VInd i)) w (i_bounds r)
+            | None => Unsupported end
+        | _ =>
+          match objective_indicator o with
+          | None => Unsupported
+          | Some (key, given, ie) =>
+            match find_ind st ind with
+            | Some _ => Unsupported                  (* the harness chooses a fresh id *)
+            | None =>
+              match resolve_i st ie with
+              | None => Unsupported
+              | Some re =>
+                match add_indicator st ind key given None re with
+                | None => Err
+                | Some st1 =>
+                    fin st1 (TV (VInd ind)) 1 (ind_bounds None re)
+                end
+              end
+            end
+          end
         end
       end
   end.
@@ -443,7 +666,60 @@ Definition initialize (st : pstate) : list (tag * form) :=
   ++ flat_map (fun w => tagged (TgOverlap (w_ref w)) (pairs_no_overlap (RW (w_ref w)) (busy_of st (RW (w_ref w)))))
               (ps_workers st)
   ++ flat_map (fun c => if c_flag c then [] else tagged (TgCons (c_id c)) (conrec_asserts c)) (ps_cons st)
+  ++ flat_map (fun i => tagged (TgInd (i_id i)) (ind_asserts i)) (x_inds (ps_ext st))
   ++ flat_map (fun t => tagged (TgWork (ti_id t)) (work_assert st t)) (ps_tasks st)
+  ++ flat_map (fun b => tagged (TgBuf (b_id b)) (buffer_block b)) (x_bufs (ps_ext st))
   ++ (match ps_horizon st with Some h => [(TgProblem, FLe (TV VHorizon) (TC h))] | None => [] end).
 
 Definition sat (e : env) (l : list (tag * form)) : Prop := forall g f, In (g, f) l -> feval e f = true.
+
+(* ------------------------------------------------------------------ *)
+(* solver configuration and create_objective() *)
+Inductive optimizer := OptIncremental | OptOptimize.
+Inductive priority := PrPareto | PrLex | PrBox | PrWeight.
+Record solvercfg := { cf_optimizer : optimizer; cf_priority : priority; cf_debug : bool; cf_logic : option nat;
+                      cf_parallel : bool; cf_random : bool; cf_verbosity : nat }.
+Definition default_cfg : solvercfg :=
+  {| cf_optimizer := OptIncremental; cf_priority := PrPareto; cf_debug := false; cf_logic := None;
+     cf_parallel := false; cf_random := false; cf_verbosity := 0 |}.
+
+Inductive solverkind := SkOptimize (p : priority) | SkSolver | SkSolverFor (logic : nat).
+Definition objectives (st : pstate) : list objrec := x_objs (ps_ext st).
+Definition is_multi (st : pstate) : bool := match objectives st with _ :: _ :: _ => true | _ => false end.
+Definition uses_equivalent (c : solvercfg) (st : pstate) : bool :=
+  is_multi st && (match cf_optimizer c with OptIncremental => true | OptOptimize => match cf_priority c with PrWeight => true | _ => false end end).
+
+(* build_equivalent_weighted_objective *)
+Definition equivalent_asserts (st : pstate) : list form :=
+  [FEq (TV VEquivObj) (TAdd (map (fun o => TMul (TC (o_weight o)) (o_target o)) (objectives st)));
+   FEq (TV VEquivInd) (TV VEquivObj)].
+Definition last_dir (l : list objrec) : dirn := match rev l with o :: _ => o_dir o | [] => DMin end.
+
+Record setup := {
+  su_kind : solverkind;
+  su_asserts : list (tag * form);           (* everything passed to add / assert_and_track, in order *)
+  su_tracked : bool;                        (* assert_and_track with a fresh identifier per assertion *)
+  su_directives : list (dirn * term);       (* minimize / maximize calls on z3.Optimize *)
+  su_objective : option (term * dirn * option (Z * Z)) }.   (* self._objective: target, direction, bounds *)
+
+Definition solver_setup (c : solvercfg) (st : pstate) : setup :=
+  let objs := objectives st in
+  let kind := match objs, cf_optimizer c with
+              | _ :: _, OptOptimize => SkOptimize (cf_priority c)
+              | _, _ => match cf_logic c with None => SkSolver | Some l => SkSolverFor l end end in
+  let equiv := uses_equivalent c st in
+  {| su_kind := kind;
+     su_asserts := initialize st ++ (if equiv then tagged TgObj (equivalent_asserts st) else []);
+     su_tracked := cf_debug c;
+     su_directives :=
+       match objs with
+       | [] => []
+       | [o] => match cf_optimizer c with OptOptimize => [(o_dir o, o_target o)] | OptIncremental => [] end
+       | _ => if equiv then [] else map (fun o => (o_dir o, o_target o)) objs
+       end;
+     su_objective :=
+       match objs with
+       | [] => None
+       | [o] => Some (o_target o, o_dir o, o_bounds o)
+       | _ => if equiv then Some (TV VEquivInd, last_dir objs, None) else None
+       end |}.
